@@ -180,6 +180,15 @@ func (s *Solver) Values(vars []*Term) map[string]uint64 {
 	return res
 }
 
+// Reset clears the solver state (definitions included).
+func (s *Solver) Reset() {
+	s.send("(reset)")
+	s.send("(set-option :global-declarations true)")
+	s.send("(set-option :timeout 10000)")
+	s.declared = make(map[*Term]bool, 1<<15)
+	s.depth = 0
+}
+
 func (s *Solver) Close() {
 	s.send("(exit)")
 	s.in.Close()
